@@ -173,6 +173,43 @@ def make_case(g, s_rules, t_rules, roots):
     return c
 
 
+def self_case(g, s_rules, root):
+    """`S.add_schema(S, R)`: T is S itself. The call must return, and S then consists of its previous rules plus
+    each of them re-rooted at R (shortest path first, ties: previous rules first, then in the previous order)."""
+    desc = {"S": [rc.rule_desc(x) for x in s_rules], "self_addition_root": enc.enc_val(list(root))}
+    c = Case("add_schema_self", desc)
+    c.py = "\n".join([rc.PY_HEAD, f"S = Schema([{', '.join(rc.rule_py(x) for x in s_rules)}])",
+                      f"S.add_schema(S, DataPath(*{list(root)!r}))", "print([r.path for r in S.rules])"])
+    try:
+        S = Schema([rc.build_rule(x) for x in s_rules])
+    except TypeError:
+        return None
+    before = list(S.rules)
+    s_terms = [enc.enc_rule(x) for x in before]
+    rp = DP.DataPath(*root)
+    o = enc.outcome(lambda: S.add_schema(S, rp), seconds=2.0)
+    if o[0] != "ok":
+        c.fail("add_schema_raises", f"adding a schema to itself: add_schema gave {o[1]}")
+        return c
+    c.ask(["add_schema", s_terms, [[s_terms, enc.enc_path(rp)]]], [[enc.enc_rule(x) for x in S.rules]], "add_schema",
+          lambda impl, model: None if impl == model else "rules differ")
+    want = sorted([("S", i, len(x.path)) for i, x in enumerate(before)] +
+                  [("T", i, len(root) + len(x.path)) for i, x in enumerate(before)], key=lambda t: t[2])
+    got = []
+    for x in S.rules:
+        if any(x is y for y in before):
+            got.append(("S", next(i for i, y in enumerate(before) if y is x), len(x.path)))
+        else:
+            got.append(("T", next((i for i, y in enumerate(before) if y.condition is x.condition), -1), len(x.path)))
+    if len(S.rules) != 2 * len(before):
+        c.fail("rule_count", f"S has {len(S.rules)} rules after adding itself, expected {2 * len(before)}")
+    elif [t[2] for t in got] != [t[2] for t in want] or sorted(got) != sorted(want):
+        c.fail("tie_order", f"after adding S to itself its rules are {got}, expected {want}")
+    c.nontrivial = len(before) > 0
+    c.features.add(("self", min(len(before), 3), len(root)))
+    return c
+
+
 def t_rules_have_empty_path(t_rules):
     return any(not x["parts"] for x in t_rules)
 
@@ -182,6 +219,11 @@ def generate(rng, n, tier):
     cases = []
     while len(cases) < n:
         s_rules = [rc.gen_rule(g, max_parts=2) for _ in range(rng.choice([0, 1, 2, 3]))]
+        if rng.random() < 0.06:
+            c = self_case(g, s_rules, tuple(rng.choice(["p", "q", 0, "a"]) for _ in range(rng.choice([1, 2]))))
+            if c is not None:
+                cases.append(c)
+            continue
         t_rules = [rc.gen_rule(g, max_parts=2) for _ in range(rng.choice([1, 1, 2, 3]))]
         nroots = rng.choice([1, 1, 2, 3])
         roots = []
